@@ -54,6 +54,13 @@ Record rdef := { df_methods : list str; df_path : str; df_nil_handler : bool; df
 Definition set_tables (rt : router) (cnt : nat) (rs : list route) st rg ir nm : router :=
   {| ropts := ropts rt; counter := cnt; routes := rs; stable := st; regular := rg; irregular := ir; named := nm; cache := cache rt |}.
 
+(* Route.NamedTo(name, router) for the route with identity rid (an attached route or a fresh one): the trimmed name, if
+   not empty, now points to that route; nothing else changes *)
+Definition names_set (nm : list (str * nat)) (n : str) (rid : nat) : list (str * nat) :=
+  match trim_space n with [] => nm | n' => map_set n' rid nm end.
+Definition named_to (rt : router) (n : str) (rid : nat) : router :=
+  set_tables rt (counter rt) (routes rt) (stable rt) (regular rt) (irregular rt) (names_set (named rt) n rid).
+
 Definition reg_route (rt : router) (d : rdef) : outcome router :=
   if negb (good_info (df_nil_handler d) (df_methods d)) then Panic else
   let rid := List.length (routes rt) in
